@@ -152,6 +152,30 @@ def uniform(S, n, boundary, coords='sym'):
     S.prove(S.eq(sum(w), 1, 1.0, None if boundary else 1e-12), 'uniform:sum-to-one')
 
 
+def uniform_cache(S, n, boundary):
+    """The moment cache of UQDistribution (keyed by interval) stays ACTIVE: one distribution object and one weighted grid object see two
+    refinement trees one after the other (the second a solver-chosen other tree, sharing intervals with the first), on [2,6] and then - same
+    objects - again.  Every time the weights are the trapezoidal weights over the length (renormalised without boundary)."""
+    from sparseSpACE import GridOperation as GO
+    G = _G()
+    a, b = 2.0, 6.0
+    dist = GO.UQDistribution(lambda x: 1 / (b - a), lambda x: (x - a) / (b - a), lambda p: a + p * (b - a))
+    grid = G.GlobalTrapezoidalGridWeighted([a], [b], _Op([dist]), boundary=boundary)
+    trees = [lib.tree_levels(S, 'tree', n), lib.tree_levels(S, 'tree2', n + 1)]
+    for rnd, t in enumerate(trees + trees[:1]):
+        xs = lib.dyadic_coords(t, a, b)
+        grid.set_grid([list(xs)], [[0] * len(xs)])
+        w = list(grid.weights[0])
+        ref = list(G.GlobalTrapezoidalGrid.compute_weights(list(xs), a, b, False))
+        if boundary:
+            S.prove(sym_and(*[S.eq(w[i], ref[i] / (b - a), 1.0, 1e-12) for i in range(len(xs))]), 'uniform-cache:weights-are-trapezoidal-weights-over-length-(grid %d on the same objects)' % (rnd + 1))
+        else:
+            inner = ref[1:-1]
+            tot = sum(inner)
+            S.prove(sym_and(*[S.eq(w[i], inner[i] / tot, 1.0, 1e-12) for i in range(len(xs) - 2)]), 'uniform-cache:inner-weights-are-renormalised-trapezoidal-weights-(grid %d on the same objects)' % (rnd + 1))
+    S.observe('cached intervals', len(dist.cached_moments[0]))
+
+
 class _NoCache(dict):
     def __contains__(self, k):
         return False
@@ -513,6 +537,9 @@ def jobs(tier):
             # without boundary the renormalisation divides by the inner weight sum (a quotient of solver variables): dyadic trees on [2,6] instead
             js.append(Job('uniform[n=%d,%s]' % (n, 'b' if boundary else 'nb'), uniform, {'n': n, 'boundary': boundary, 'coords': 'sym' if boundary else 'tree'},
                           extra_shims=extra, validate=(5 if q else 2)))
+    for n in ((4, 5) if q else (4, 5, 6, 7)):
+        for boundary in (True, False):
+            js.append(Job('uniform-cache[n=%d,%s]' % (n, 'b' if boundary else 'nb'), uniform_cache, {'n': n, 'boundary': boundary}, extra_shims=extra, validate=(5 if q else 2)))
     js.append(Job('midpoint[exact-inverse]', midpoint, {'exact_inverse': True}))
     js.append(Job('midpoint[arbitrary-ppf]', midpoint, {'exact_inverse': False}))
     for d in ((2, 3) if q else (2, 3, 4)):
